@@ -559,10 +559,15 @@ class PathLimit(Exception):
 class PathEval:
     """Enumerate and evaluate acyclic paths of a body."""
 
-    def __init__(self, fx, body, max_paths=20000, adt_discr=None):
+    def __init__(self, fx, body, max_paths=20000, adt_discr=None, inline=None, _stack=()):
         self.fx = fx
         self.body = body
         self.max_paths = max_paths
+        # inline: set of crate-local function keys that may be inlined at their call sites (helpers that did not exist when the
+        # rules were written); None / empty = no inlining.  inlined: keys actually inlined (for the evidence).
+        self.inline = inline or frozenset()
+        self._stack = _stack
+        self.inlined = set()
         self._loop_defs = {h: body.assigned_locals(blks) for h, blks in body.loops.items()}
         self._loop_stores = {}
         self.npaths = 0
@@ -850,6 +855,12 @@ class PathEval:
                 path = f["path"]
                 site = None if is_pure(path) else bb
                 val = ("call", path, tuple(f.get("gargs", ())), args, site)
+                folded = _fold_try(path, args, tuple(f.get("gargs", ())))
+                if folded is not None and t["target"] is not None:
+                    # `?` applied to a literal Ok/Err/Some/None (arises when a fallible helper was inlined): no call, no event
+                    self.assign(st, t["dest"], folded, bb, events)
+                    bb = t["target"]
+                    continue
                 ev = Event("call", bb, path=path, name=norm_path(path), full=f["full"], func=f, args=args, dest=t["dest"], term=val,
                            diverges=t["target"] is None)
                 events = events + [ev]
@@ -860,6 +871,41 @@ class PathEval:
                         st["env"][l] = ("mutated", l, bb, None)
                 if t["target"] is None:
                     self._finish(out, blocks, events, ("diverge", bb), st)
+                    return
+                summ = self._inline_summary(path) if self.inline else None
+                if summ is not None:
+                    # a helper introduced after the rules were written: splice its paths in instead of an opaque call
+                    events = events[:-1]
+                    for (cevents, cfacts, cend) in summ:
+                        sub = _Subst(args, bb, path if path in self.fx.fns else norm_path(path))
+                        st2 = self._clone(st)
+                        feasible = True
+                        for c, fact in cfacts:
+                            c2 = sub(c)
+                            known = self._known(st2, c2)
+                            if known is not None and fact[0] == "eq" and ((known[0] == "eq" and known[1] != fact[1]) or (known[0] == "ne" and fact[1] in known[1])):
+                                feasible = False
+                                break
+                            if known is not None and fact[0] == "ne" and known[0] == "eq" and known[1] in fact[1]:
+                                feasible = False
+                                break
+                            if not (isinstance(c2, tuple) and c2 and c2[0] == "const"):
+                                st2["facts"][c2] = fact
+                        if not feasible:
+                            continue
+                        evs = events + [sub.event(e) for e in cevents]
+                        # a caller local handed on as &mut is mutated by the calls the helper makes with it
+                        for e in evs[len(events):]:
+                            if e.kind == "call":
+                                for a in e.args:
+                                    if isinstance(a, tuple) and a[0] == "refmut" and isinstance(a[1], tuple) and a[1][0] == "loc":
+                                        st2["env"][a[1][1]] = ("mutated", a[1][1], bb, None)
+                        if cend[0] == "return":
+                            evs2 = list(evs)
+                            self.assign(st2, t["dest"], sub(cend[1]), bb, evs2)
+                            self._walk(t["target"], st2, blocks, evs2, onpath, out, stop_at)
+                        else:
+                            self._finish(out, blocks, evs, ("diverge", bb), st2)
                     return
                 self.assign(st, t["dest"], val, bb, events)
                 bb = t["target"]
@@ -915,6 +961,49 @@ class PathEval:
             self._finish(out, blocks, events, ("other", bb), st)
             return
 
+    _INLINE_CACHE = {}
+
+    def _inline_summary(self, path):
+        """[(events, [(cond, fact)...], end)] for an inlinable callee, else None.  Inlinable: listed in self.inline, not on the
+        current inlining stack, no loops, at most 12 paths, every path returns or diverges, and no term refers to a callee local
+        by identity (no &mut-to-local, havoc, mutated, undef): the callee is a pure function of its arguments as far as the terms go."""
+        key = path if path in self.fx.fns else norm_path(path)
+        if key not in self.inline or key in self._stack or len(self._stack) >= 3:
+            return None
+        ck = (id(self.fx), key, self.inline if isinstance(self.inline, frozenset) else frozenset(self.inline))
+        if ck in PathEval._INLINE_CACHE:
+            r = PathEval._INLINE_CACHE[ck]
+        else:
+            r = None
+            f = self.fx.fns.get(key)
+            try:
+                b = Body(f)
+                if not b.loops:
+                    pe = PathEval(self.fx, b, max_paths=12, inline=self.inline, _stack=self._stack + (key,))
+                    ps = pe.paths()
+                    ok = all(p.end[0] in ("return", "diverge", "unreachable") for p in ps)
+                    bad_heads = ("loc", "havoc", "mutated", "undef", "refmut")
+                    summ = []
+                    for p in ps:
+                        if p.end[0] == "unreachable":
+                            continue
+                        terms = [p.end[1]] if p.end[0] == "return" else []
+                        for e in p.events:
+                            terms += [v for v in e.data.values() if isinstance(v, tuple)]
+                            if e.kind == "store":
+                                ok = False
+                        if any(mentions(t_, lambda x: x[0] in bad_heads) for t_ in terms if isinstance(t_, tuple)):
+                            ok = False
+                        summ.append(([e for e in p.events], [(e.term, e.fact) for e in p.events if e.kind == "cond"], p.end))
+                    if ok and summ:
+                        r = summ
+            except Exception:
+                r = None
+            PathEval._INLINE_CACHE[ck] = r
+        if r is not None:
+            self.inlined.add(key)
+        return r
+
     def _norm_cond(self, c):
         flip = False
         while isinstance(c, tuple) and c[0] == "unop" and c[1] == "Not":
@@ -961,6 +1050,74 @@ class PathEval:
                     if fa is not None and fa[0] == at[0] and fa[1] != at[1]:
                         return ("eq", False)
         return None
+
+
+def _fold_try(path, args, gargs=()):
+    """Try::branch / FromResidual::from_residual applied to a literal Option/Result aggregate, evaluated"""
+    if len(args) == 1 and path.endswith("Try>::branch") and isinstance(args[0], tuple) and args[0] and args[0][0] == "call" \
+            and "FromResidual" in args[0][1] and args[0][1].endswith("::from_residual"):
+        # from_residual never yields Ok/Some: re-raising it is always the Break edge
+        return ("agg", "adt", "std::ops::ControlFlow", "Break", (args[0],), ())
+    if len(args) != 1 or not (isinstance(args[0], tuple) and args[0] and args[0][0] == "agg" and args[0][1] == "adt"):
+        return None
+    a = args[0]
+    base = str(a[2]).split("<")[0]
+    if base not in ("std::result::Result", "std::option::Option"):
+        return None
+    if path.endswith("Try>::branch"):
+        if a[3] in ("Ok", "Some"):
+            return ("agg", "adt", "std::ops::ControlFlow", "Continue", (a[4][0],), ())
+        if a[3] in ("Err", "None"):
+            return ("agg", "adt", "std::ops::ControlFlow", "Break", (a,), ())
+    if "FromResidual" in path and path.endswith("::from_residual"):
+        if a[3] == "Err":
+            if len(gargs) == 3 and gargs[1] == gargs[2]:
+                return ("agg", "adt", "std::result::Result", "Err", (a[4][0],), ())   # From<T> for T is the identity
+            return ("agg", "adt", "std::result::Result", "Err", (("call", "<F as std::convert::From<E>>::from", tuple(gargs[1:]), (a[4][0],), None),), ())
+        if a[3] == "None":
+            return ("agg", "adt", "std::option::Option", "None", (), ())
+    return None
+
+
+class _Subst:
+    """substitute a callee's parameters by the argument terms of one call site; callee call-site ids are made unique per caller site;
+    events are re-homed to the caller's call block so that spans / loop membership refer to the caller"""
+
+    def __init__(self, args, bb, callee=None):
+        self.args = args
+        self.bb = bb
+        self.callee = callee
+        self.memo = {}
+
+    def __call__(self, t):
+        if not isinstance(t, tuple) or not t:
+            return t
+        try:
+            if t in self.memo:
+                return self.memo[t]
+        except TypeError:
+            return t
+        if t[0] == "param" and len(t) == 2 and isinstance(t[1], int):
+            r = self.args[t[1] - 1] if 1 <= t[1] <= len(self.args) else t
+        elif t[0] == "call" and len(t) == 5:
+            site = t[4]
+            r = ("call", t[1], t[2], tuple(self(a) for a in t[3]), (None if site is None else -(self.bb * 10000 + site + 1)))
+        elif t[0] == "const":
+            r = t
+        else:
+            r = tuple(self(x) if isinstance(x, tuple) else x for x in t)
+        self.memo[t] = r
+        return r
+
+    def event(self, e):
+        d = {}
+        for k, v in e.data.items():
+            d[k] = self(v) if isinstance(v, tuple) else v
+        if "inlined_from" not in d:
+            # innermost origin: the helper whose body contains this statement, and the block there
+            d["inlined_from"] = self.callee
+            d["inlined_from_bb"] = e.bb
+        return Event(e.kind, self.bb, **d)
 
 
 def body_of(fx, key):
